@@ -91,6 +91,13 @@ Print Assumptions peerstore_roundtrip.
 (* what PeerInfos returns is always well formed (for every peerstore reachable by imports and every list of distinct
    peers), so the round trip applies to whatever a host saves at shutdown: whatever file the host started from, what
    it saves reads back identically on another host *)
+(* whatever the file held before the save (an earlier shutdown's longer list, comments, garbage), what is read back
+   afterwards is what was saved now: nothing of the previous content survives *)
+Theorem peerstore_resave_replaces_file (prev : list line) (infos : list pinfo) :
+  load_lines (save_onto prev infos) = load_lines (save_lines infos) /\ save_onto prev infos = save_onto [] infos.
+Proof. exact (conj eq_refl eq_refl). Qed.
+Print Assumptions peerstore_resave_replaces_file.
+
 Theorem peerstore_roundtrip_from_any_file (ls : list line) (self self2 : N) (peers query : list N) (ps : pstore) :
   import_file true self ls ps_empty = IOk ps -> NoDup peers ->
   let infos := peer_infos self ps peers in
